@@ -480,6 +480,8 @@ static Verdict runCase(const Case& c, Info& info)
     info.count("frames", stream.size());
     if (hitSegmented)
         info.tag("fault_hit_segmented_message");
+    if (c.schedule.size() >= 120)
+        info.tag("long_run_of_another_endpoint_between_segments");
     for (const auto& sm : sent)
         if (sm.nFrames > 1 && sm.payload.size() >= 65500)
         {
@@ -529,6 +531,25 @@ static Case genBase(int tier, bool small)
     int nSched = *range<int>(1, 20);
     for (int i = 0; i < nSched; ++i)
         c.schedule.push_back(*range<uint8_t>(0, 2));
+    // one stream in ten: a chatty endpoint - hundreds of unsegmented frames of one endpoint pass between two consecutive segments of
+    // another endpoint's message ("uninterrupted on its endpoint" says nothing about how much other traffic lies in between)
+    if (!small && c.eps.size() >= 2 && *range<int>(0, 9) == 0)
+    {
+        size_t chatty = *range<size_t>(0, c.eps.size() - 1);
+        int gap = *rc::gen::weightedOneOf<int>({{3, range<int>(120, 300)}, {1, range<int>(1000, 1100)}, {1, range<int>(30, 119)}});
+        EpSpec& ep = c.eps[chatty];
+        MsgSpec u;
+        u.nSeg = 1;
+        u.nUnseg = 1;
+        u.segLen = 4;
+        u.lastLen = 4;
+        ep.msgs.insert(ep.msgs.begin(), static_cast<size_t>(gap) * 3, u);
+        c.schedule.clear();
+        for (size_t e = 0; e < c.eps.size(); ++e)
+            if (e != chatty)
+                c.schedule.push_back(static_cast<uint8_t>(e));
+        c.schedule.insert(c.schedule.end(), static_cast<size_t>(gap), static_cast<uint8_t>(chatty));
+    }
     return c;
 }
 
